@@ -127,9 +127,9 @@ def text_templates(tier):
             out.append(tuple(t))
         T = out
     else:
-        # Quote walks the printability tables once per rune: three bytes in the thorough tier
+        # Quote walks the printability tables once per rune, ToUpper/ToLower/TrimSpace/Fields map rune by rune: three bytes in the thorough tier
         T = [tuple([t[0], t[1], t[2], t[3].replace("vtBytes(w, n)", "vtBytes(w, n%4)"), t[4].replace("vtBytes(w, n)", "vtBytes(w, n%4)")] + list(t[5:]))
-             if t[0] == "strconv_Quote" else t for t in T]
+             if t[0] in ("strconv_Quote", "strings_ToUpper_ToLower", "strings_TrimSpace_Fields") else t for t in T]
     return T
 
 
